@@ -149,7 +149,10 @@ def apply_op(g, op):
         kk = min(3, n)
         probe = PROBE_LL if op[2] == "spherical" else PROBE_XYZ
         d, i = t.query(np.array(probe), k=kk)
-        return ("treequery", type(t).__name__, np.asarray(d), np.asarray(i))
+        # also ask for ALL elements of the requested kind (k = n is admissible for that kind whatever was requested before)
+        d2, i2 = t.query(np.array(probe), k=n)
+        return ("tuple2", ("treequery", type(t).__name__, np.asarray(d), np.asarray(i)),
+                ("treequery", type(t).__name__, np.asarray(d2), np.asarray(i2)))
     if k == "chunk":
         return g.chunk(n_node=op[1], n_face=op[1], n_edge=op[1])
     if k == "isel":
@@ -202,6 +205,8 @@ def canon(r):
         return ("set", sorted(map(str, r)))
     if isinstance(r, dict):
         return ("dict", sorted((str(k), repr(v)) for k, v in r.items()))
+    if isinstance(r, tuple) and r and r[0] == "tuple2":
+        return ("tuple", [canon(r[1]), canon(r[2])])
     if isinstance(r, tuple) and r and r[0] == "treequery":
         return ("tree", r[1], arr(r[2]), arr(r[3]))
     if isinstance(r, (tuple, list)):
@@ -561,7 +566,7 @@ def main(ck):
         "ball": [("ball", c, sy, me, False) for c in ("nodes", "face centers", "edge centers")
                  for sy, me in (("spherical", "haversine"), ("cartesian", "minkowski"))],
         "kd": [("kd", c, sy, me, False) for c in ("nodes", "face centers", "edge centers")
-               for sy, me in (("cartesian", "minkowski"), ("spherical", "minkowski"))],
+               for sy, me in (("cartesian", "minkowski"), ("spherical", "minkowski"), ("cartesian", "manhattan"))],
     }
     for fam, ops_ in combos.items():
         if ck.tier == "quick" and len(ops_) > 7:
